@@ -5,6 +5,11 @@ package main
 //   c06OrderLess                  the less function compares `.Config.OnStartup.Order` with `<`
 //   c06StopCombineOnSkippedSync   taskHandleHookRun passes combineBindingContextForHook a stop function that
 //                                 mentions IsSynchronization and ExecuteOnSynchronization (not nil)
+//   c06V0SkipRule                 taskHandleHookRun, inside a branch on isSynchronization, compares the hook's
+//                                 Config.Version with "v0" and assigns false there ("There were no Synchronization
+//                                 for v0 hooks, skip hook execution")
+//   c06V0SyncFlag                 HookConfigV0.ConvertAndCheck assigns something other than `false` to a
+//                                 binding's ExecuteHookOnSynchronization (false: v0 bindings never carry the flag)
 // and the step skeletons of the modelled functions (tie T3).
 
 import (
@@ -83,6 +88,64 @@ func c06Facts(l *leanDefs) {
 	} else {
 		stale = true
 	}
+	v0Rule := false
+	if fd := findFunc("pkg/shell-operator/operator.go", "ShellOperator", "taskHandleHookRun"); fd != nil && fd.Body != nil {
+		isV0Cmp := func(e ast.Expr) bool {
+			b, ok := e.(*ast.BinaryExpr)
+			if !ok || b.Op != token.EQL {
+				return false
+			}
+			x, y := exprStr(b.X), exprStr(b.Y)
+			ver := func(s string) bool { return len(s) >= len("Config.Version") && s[len(s)-len("Config.Version"):] == "Config.Version" }
+			return (ver(x) && y == `"v0"`) || (ver(y) && x == `"v0"`)
+		}
+		assignsFalse := func(body *ast.BlockStmt) bool {
+			found := false
+			ast.Inspect(body, func(m ast.Node) bool {
+				if as, ok := m.(*ast.AssignStmt); ok && len(as.Rhs) == 1 && exprStr(as.Rhs[0]) == "false" {
+					found = true
+				}
+				return true
+			})
+			return found
+		}
+		ast.Inspect(fd.Body, func(nd ast.Node) bool {
+			outer, ok := nd.(*ast.IfStmt)
+			if !ok {
+				return true
+			}
+			c := exprStr(outer.Cond)
+			if c != "isSynchronization" && c != "hookMeta.IsSynchronization()" {
+				return true
+			}
+			ast.Inspect(outer.Body, func(m ast.Node) bool {
+				if inner, ok := m.(*ast.IfStmt); ok && isV0Cmp(inner.Cond) && assignsFalse(inner.Body) {
+					v0Rule = true
+				}
+				return true
+			})
+			return true
+		})
+	} else {
+		stale = true
+	}
+	v0Flag := false
+	if fd := findFunc("pkg/hook/config/config_v0.go", "HookConfigV0", "ConvertAndCheck"); fd != nil && fd.Body != nil {
+		ast.Inspect(fd.Body, func(nd ast.Node) bool {
+			as, ok := nd.(*ast.AssignStmt)
+			if !ok || len(as.Lhs) != 1 || len(as.Rhs) != 1 {
+				return true
+			}
+			if sel, ok := as.Lhs[0].(*ast.SelectorExpr); ok && sel.Sel.Name == "ExecuteHookOnSynchronization" && exprStr(as.Rhs[0]) != "false" {
+				v0Flag = true
+			}
+			return true
+		})
+	} else {
+		stale = true
+	}
+	l.def("c06V0SkipRule", "Bool", strconv.FormatBool(v0Rule), "pkg/shell-operator/operator.go: taskHandleHookRun skips a Synchronization when Config.Version == \"v0\"")
+	l.def("c06V0SyncFlag", "Bool", strconv.FormatBool(v0Flag), "pkg/hook/config/config_v0.go: ConvertAndCheck sets ExecuteHookOnSynchronization of a v0 binding")
 	l.def("c06StableSort", "Bool", strconv.FormatBool(stable), "pkg/hook/hook_manager.go: GetHooksInOrder")
 	l.def("c06OrderLess", "Bool", strconv.FormatBool(less), "pkg/hook/hook_manager.go: GetHooksInOrder less function is hooks[i].Config.OnStartup.Order < hooks[j].Config.OnStartup.Order")
 	l.def("c06StopCombineOnSkippedSync", "Bool", strconv.FormatBool(stop), "pkg/shell-operator/operator.go: taskHandleHookRun stop function of combineBindingContextForHook")
@@ -101,5 +164,10 @@ func init() {
 		skelTarget{Name: "C06.taskHandleHookRun", File: "pkg/shell-operator/operator.go", Recv: "ShellOperator", Func: "taskHandleHookRun",
 			Fields: []string{"Status", "ExecuteOnSynchronization", "Version", "Group", "AllowFailure", "MonitorIDs", "BindingContext"},
 			Calls:  []string{"IsSynchronization", "combineBindingContextForHook", "handleRunHook", "UnlockKubernetesEventsFor", "UpdateMetadata", "RateLimitWait"}},
+		// the loop Model/Startup `enableBindings` follows: every attempt walks over all bindings from the first one
+		skelTarget{Name: "kubernetesBindingsController.EnableKubernetesBindings", File: "pkg/hook/controller/kubernetes_bindings_controller.go",
+			Recv: "kubernetesBindingsController", Func: "EnableKubernetesBindings",
+			Fields: []string{"KubernetesBindings"},
+			Calls:  []string{"AddMonitor", "HasMonitor", "GetMonitor", "StartMonitor", "StopMonitor", "setBindingMonitorLinks", "getBindingMonitorLinksById", "HandleEvent"}},
 	)
 }
